@@ -245,6 +245,36 @@ fn lle_case(c: &(String, M), rec: &mut Rec) {
             let bal = ((f.vapor().moles.clone() + f.liquid().moles.clone() - feed.clone()) / feed.sum()).into_value().iter().fold(0.0f64, |a, b| a.max(b.abs()));
             rec.check("material_balance", "lle_flash", bal / 1e-12, true, || format!("balance {bal:e}"));
             let (x1, x2) = (f.vapor().molefracs[0], f.liquid().molefracs[0]);
+            // liquid-liquid saturation points through bubble_point / dew_point (pressure specified, the other liquid as guess for the
+            // incipient phase), from BOTH sides: the incipient phase is denser than the specified phase on one side and less dense on
+            // the other; the specified composition must come back as liquid() of a bubble point and as vapor() of a dew point
+            // (at 100 bar, far above the three-phase pressure, so that the liquid-liquid point is the nearby solution; which solution
+            // the solver ends on is not part of the property: it is counted, the echo of the specification is required)
+            let p_hi = 100.0 * BAR;
+            let f_hi = PhaseEquilibrium::tp_flash(eos, t, p_hi, &feed, None, Default::default(), None);
+            for (side, spec, other) in f_hi.iter().flat_map(|f| [("light", f.vapor(), f.liquid()), ("dense", f.liquid(), f.vapor())]) {
+                for (kind, r) in [
+                    ("bubble", PhaseEquilibrium::bubble_point(eos, p_hi, &spec.molefracs, Some(t), Some(&other.molefracs), Default::default())),
+                    ("dew", PhaseEquilibrium::dew_point(eos, p_hi, &spec.molefracs, Some(t), Some(&other.molefracs), Default::default())),
+                ] {
+                    let sub = format!("lle_{kind}|{side}");
+                    match r {
+                        Ok(b) => {
+                            conditions(rec, &sub, &b);
+                            let kept = if kind == "bubble" { b.liquid() } else { b.vapor() };
+                            let inc = if kind == "bubble" { b.vapor() } else { b.liquid() };
+                            let dx = (&kept.molefracs - &spec.molefracs).iter().fold(0.0f64, |a, v| a.max(v.abs()));
+                            rec.check("spec_exact", &format!("{sub}|x"), dx / 1e-14, true, || format!("{kind} point: specified composition {:?} came back as {:?} (the other phase has {:?})", spec.molefracs.to_vec(), kept.molefracs.to_vec(), inc.molefracs.to_vec()));
+                            let dt = ((kept.temperature - t) / t).into_value().abs();
+                            let dxi = (&inc.molefracs - &other.molefracs).iter().fold(0.0f64, |a, v| a.max(v.abs()));
+                            if dt < 1e-4 && dxi < 1e-3 {
+                                rec.count(&format!("liquid_liquid_point_found|{kind}|{side}"));
+                            }
+                        }
+                        Err(_) => rec.skip("liquid-liquid bubble/dew point fails (conditional)"),
+                    }
+                }
+            }
             match PhaseEquilibrium::heteroazeotrope(eos, t, (x1.min(x2), x1.max(x2)), None, Default::default(), Default::default()) {
                 Ok(h) => {
                     // three phases at one T, p with equal fugacities
